@@ -196,3 +196,62 @@ def run(eng, R):
             for f in cache.visible_functions(c):
                 pairs.append((c, f))
         check_arg_slots(eng, R, "F1", pairs)
+
+    # ---- MINOS rows: the interval of a parameter lands in the row of that parameter
+    with R.guard("MINOS rows"):
+        R.rule("H-minos", "MinimizerIMinuit: the MINOS interval of a free parameter is stored in the row of that parameter (row index = position of the name in "
+                          "parameter_names), rows of fixed parameters stay (0, 0); the result is filled row by row, not assembled by inserting rows at a list of positions", 1)
+        fm = get_func(p, "MinimizerIMinuit", "_calculate_asymmetric_parameter_errors")
+        fn = common.read_through(eng.cnode(fm), simple_calls=("abs", "min", "max", "float", "int", "len", "index"))
+        rets = [r.value for r in ast.walk(fn) if isinstance(r, ast.Return) and r.value is not None and not (isinstance(r.value, ast.Constant) and r.value.value is None)]
+        res = {r.id for r in rets if isinstance(r, ast.Name)}
+        ok_shape = len(res) == 1 and len(rets) == len([r for r in rets if isinstance(r, ast.Name)])
+        why = "the result is not one array that is filled in place"
+        stores_ok = False
+        if ok_shape:
+            (rn,) = res
+            inits = [a.value for a in ast.walk(fn) if isinstance(a, ast.Assign) and any(isinstance(t, ast.Name) and t.id == rn for t in a.targets)]
+            ok_shape = len(inits) == 1 and isinstance(inits[0], ast.Call) and common.call_name(inits[0]) == "zeros"
+            why = "the result array is not created by np.zeros and filled in place (found %s)" % [" ".join(ast.unparse(i).split())[:60] for i in inits]
+            if ok_shape:
+                loops = [l for l in ast.walk(fn) if isinstance(l, ast.For) and " ".join(ast.unparse(l.iter).split()) in ("self.parameter_names", "enumerate(self.parameter_names)")]
+                good, n_read = bool(loops), 0
+                for s_ in ast.walk(fn):
+                    if not (isinstance(s_, ast.Assign) and isinstance(s_.targets[0], ast.Subscript) and isinstance(s_.targets[0].value, ast.Name) and s_.targets[0].value.id == rn):
+                        continue
+                    lp = next((l for l in loops if any(x is s_ for x in ast.walk(l))), None)
+                    if lp is None:
+                        good = False
+                        continue
+                    if isinstance(lp.target, ast.Tuple):
+                        iv, nv = lp.target.elts[0].id, lp.target.elts[1].id
+                    else:
+                        iv, nv = None, lp.target.id
+                    sl = s_.targets[0].slice
+                    row = sl.elts[0] if isinstance(sl, ast.Tuple) else sl
+                    row_t = " ".join(ast.unparse(common.resolve_local(fn, row)).split())
+                    good = good and row_t in ("self.parameter_names.index(%s)" % nv, iv or "")
+                # the MINOS result read inside the loop is the one of the loop's own name (v1: keyed by name; v2: position among the free parameters) - whether
+                # it is read in the store or into locals first
+                for lp in loops:
+                    nv = lp.target.elts[1].id if isinstance(lp.target, ast.Tuple) else lp.target.id
+                    for x in ast.walk(lp):
+                        if isinstance(x, ast.Subscript) and isinstance(x.ctx, ast.Load) and "minos" in ast.unparse(common.resolve_local(fn, x.value)).lower():
+                            n_read += 1
+                            ke = common.resolve_local(fn, x.slice)
+                            key = " ".join(ast.unparse(ke).split())
+                            by_free_position = False
+                            if isinstance(ke, ast.Call) and isinstance(ke.func, ast.Attribute) and ke.func.attr == "index" and [" ".join(ast.unparse(a).split()) for a in ke.args] == [nv]:
+                                # ... position in the list of the *free* names: [n for n in self.parameter_names if not self.is_fixed(n)] (possibly pre-set to None)
+                                recv = ke.func.value
+                                defs = [a.value for a in ast.walk(fn) if isinstance(a, ast.Assign) and any(isinstance(t, ast.Name) and isinstance(recv, ast.Name) and t.id == recv.id for t in a.targets)]
+                                defs = defs or [recv]
+                                comps = [d for d in defs if isinstance(d, ast.ListComp)]
+                                by_free_position = len(comps) == 1 and all(isinstance(d, ast.ListComp) or (isinstance(d, ast.Constant) and d.value is None) for d in defs) \
+                                    and " ".join(ast.unparse(comps[0].generators[0].iter).split()) == "self.parameter_names" \
+                                    and any("is_fixed" in ast.unparse(c) for c in comps[0].generators[0].ifs)
+                            good = good and (key == nv or by_free_position or key in ("'lower'", "'upper'"))
+                stores_ok = good and n_read >= 2
+                why = "a store into the result is not in the row of the parameter whose MINOS interval it holds"
+        R.ob("H-minos", "MinimizerIMinuit._calculate_asymmetric_parameter_errors:rows", ok_shape and stores_ok, (fm.file, fm.lineno),
+             "asymmetric errors of the iminuit backend: %s" % why)
